@@ -11,6 +11,18 @@ CLAIMED = {
   text="Proof, for all parameter values, block heights, consensus limits and gas figures, that CalculateBaseFee returns exactly the EIP-1559 function of the property statement (all six cases, result freshly allocated, no division by zero, no unsigned wrap-around) and that Params.Validate admits only parameters for which that function is defined. Unbounded: the code is loop-free and the inputs are fully symbolic.",
   design="§6 C17",
   note="Assumes the lib specs of math/big, cosmossdk.io/math and sdk.Context accessors, the trusted leaf contracts of the feemarket store getters/setters, and mathematical int64 arithmetic. EndBlock's gas clamp is covered by a separate contract in the same file. Monotonicity in g is a lemma over the postcondition (thorough tier)."),
+ "C09": dict(
+  text="Proof, for schedules of any length and amounts of any size and for an arbitrary (ghost) instant t, that ReadSchedule returns the sum of the periods ended by t (zero up to the start, the total from the end on), that DisjunctPeriods releases at every instant exactly the sum and ConjunctPeriods exactly the pointwise minimum of its inputs, that AlignSchedules / NewClawbackVestingAccount keep every absolute event time, that ComputeClawback returns exactly original - vested, keeps the vested coins under min(old lockup, vested) and a valid account, that addGrant merges the union of both schedules' events, that transferClawback sends exactly the unvested amount to the destination and that Clawback reaches it only for the recorded funder. Loop invariants over recursive ghost functions (prefix time, prefix sum, 'ended by t'), inductive lemmas, modular callee contracts.",
+  design="§6 C09",
+  note="Assumes mathematical int64 time arithmetic, the Coins map theory (valid coin lists), value semantics of slices, the assumed contracts of the expected keepers (account/bank) and lib specs of time/sdk. Known finding F7 (EndTime == StartTime after a clawback with nothing vested) is listed in known_findings.json. History-level statements (sequences of messages) are covered only through per-operation contracts."),
+ "C08": dict(
+  text="Proof for all accounts satisfying the representation invariant and all block times that LockedCoins equals max(original - unlockedVested - trackedDelegated, unvested) pointwise per denomination, lies between zero and the original grant, that the vested/unlocked/locked/unvested getters equal their defining schedule reads and never go negative (no Coins.Sub can panic), and that TrackDelegation adds exactly the delegated coins.",
+  design="§6 C08",
+  note="Covers the S1 part of C08 (the locked-amount formula the bank keeper consults). The guards (eth ante vesting decorator, staking delegation check) and the claim that every debit path goes through them are not yet under contract: stated under not_decided in the evidence. Assumes the Coins map theory and lib specs."),
+ "C11": dict(
+  text="Proof for period lists of any length and amounts of any size that SubtractAmountFromPeriods splits every period exactly (left + moved = original, both non-negative, only the requested denomination moves, moved total = requested amount; error exactly when funds are insufficient), that the extract/replace/shift helpers are exact, that Liquidate escrows and mints exactly the requested amount, stores a schedule whose total is that amount and whose events keep the absolute times they had on the account, leaving period by period what was not moved, that Redeem burns/releases/shrinks by exactly the redeemed amount and hands the released schedule to the vesting keeper anchored at the token's own start, and that ApplyVestingSchedule keeps every event of the granted coins at its absolute time (nothing unlocks earlier).",
+  design="§6 C11",
+  note="Nonlinear facts (floor(a*S/Tot) bounds, cancellation, distributivity) are separate lemmas proved with real arithmetic; main goals may be discharged under the sound abstraction of * and div to uninterpreted functions. Bank/account/erc20 keepers and the denom store leaves are assumed contracts. The defect F2 (merged grants anchored too early) was found by this check and repaired (fix: commit). Backing over arbitrary histories follows only by induction over the per-operation contracts and is not proved as a whole."),
 }
 
 NA_FINAL = {
